@@ -292,6 +292,9 @@ M("c12_center_filler_sign", "C12", "ak/ppobj.py",
 M("c12_break_by_compares_first_field_only", "C12", "ak/ppobj.py",
   "                prev_break_by_values != cur_break_by_values\n",
   "                prev_break_by_values[:1] != cur_break_by_values[:1]\n")
+M("c06_registered_type_ignores_remote_name", "C06", "ak/ghist.py",
+  "        return repo_class(repo_id, repo_address, remote_name)",
+  "        return repo_class(repo_id, repo_address, 'origin')")
 M("c12_set_fmt_loses_break_by", "C12", "ak/ppobj.py",
   "                    c.fmt_modifier, c.break_by,\n                    c.min_w, c.max_w))\n\n        self.columns = columns",
   "                    c.fmt_modifier, False,\n                    c.min_w, c.max_w))\n\n        self.columns = columns")
